@@ -28,6 +28,13 @@ RE_DIGITS = re.compile(r'[0-9]+')
 PREFIXES = ('DEAL', 'DEA1', 'DEL', 'DEA', 'DIL')
 
 
+def read_source(path: Path) -> str:
+    """Read a Python source file in the encoding it declares (PEP 263).
+    """
+    with tokenize.open(str(path)) as stream:
+        return stream.read()
+
+
 class Checker:
     """The entry point for the linter, compatible with flake8 plugins interface.
     """
@@ -53,7 +60,7 @@ class Checker:
 
     @classmethod
     def from_path(cls, path: Path) -> Checker:
-        source = path.read_text()
+        source = read_source(path)
         with path.open('rb') as stream:
             tokens = list(tokenize.tokenize(stream.readline))
         return cls(
@@ -69,7 +76,7 @@ class Checker:
     def get_funcs(self) -> list[Func]:
         if self._filename == 'stdin' or astroid is None:
             return Func.from_ast(tree=self._tree)
-        text = Path(self._filename).read_text()
+        text = read_source(Path(self._filename))
         try:
             tree = astroid.parse(text)
         except astroid.AstroidSyntaxError:
